@@ -1,4 +1,4 @@
-(* Model/Choose.v — mathx/choose.go:22-44 (Choose) on exact integers.  DEFINITIONS ONLY. *)
+(* Model/GEChoose.v — mathx/choose.go:22-44 (Choose) on exact integers.  DEFINITIONS ONLY. *)
 From Coq Require Import ZArith Bool.
 Open Scope Z_scope.
 
